@@ -467,7 +467,7 @@ func Run(sc *Script, verbose bool) (x *Exec, err error) {
 	if err != nil {
 		return nil, err
 	}
-	x = &Exec{w: w, m: w.model, sc: sc, St: Stats{Labels: map[string]int{}}}
+	x = &Exec{w: w, m: w.model, sc: sc, St: Stats{Labels: map[string]int{}}, tieRestore: -1}
 	defer func() {
 		w.Shutdown()
 	}()
